@@ -298,6 +298,15 @@ def ref2(v):
     return s.rstrip("0").rstrip(".") if "." in s else s
 
 
+def printed_ok(written, exact):
+    """the two-decimal print of `exact`; where the exact value lies within float error of a rounding tie
+    (255.99em of 1920: 213.325) either neighbour is a correct rounding of the computed double"""
+    if written == ref2(exact):
+        return True
+    frac = (exact * 100) % 1
+    return abs(frac - 0.5) < 1e-6 and written in (ref2(exact - 0.004), ref2(exact + 0.004))
+
+
 def expected_pct(v, unit, W, H, horizontal):
     dim = W if horizontal else H
     if unit == UnitEnum.PERCENT:
@@ -323,6 +332,10 @@ def bounded_writers(ctx, b):
              for he in (False, True) for lvl in ("node", "language") for ft in (True, False)]
     fixed += [(UnitEnum.PIXEL, (640, 360), 127.99, 71.99, False, 10, 10, lvl, False) for lvl in ("node", "caption")]
     fixed += [(UnitEnum.PIXEL, (640, 360), 0.01, 0.01, False, 10, 10, "node", False)]
+    # a box at the left / top edge of the video (x = 0, y = 0), without extent and with one that crosses the far edge
+    fixed += [(u, (640, 360), 0, 0 if yz else 10, he, {UnitEnum.PERCENT: 95, UnitEnum.PIXEL: 620, UnitEnum.EM: 39, UnitEnum.PT: 460,
+                                                        UnitEnum.CELL: 31}[u], 10, lvl, True)
+              for u in UnitEnum for he in (False, True) for lvl in ("node", "caption") for yz in (False, True)]
     for i in range(len(fixed) + n):
         if i < len(fixed):
             unit, (W, H), ox, oy, has_ext, ew, eh, level, fit = fixed[i]
@@ -336,10 +349,12 @@ def bounded_writers(ctx, b):
             fit = rng.choice([True, False])
         mk = lambda v: Size(v, unit)
         L = Layout(origin=Point(mk(ox), mk(oy)), extent=Stretch(mk(ew), mk(eh)) if has_ext else None,
-                   padding=Padding(mk(1), mk(2), mk(3), mk(4)) if rng.random() < 0.4 else None)
+                   padding=Padding(mk(1), mk(2), mk(3), mk(4)) if (rng.random() < 0.4 and not (i < len(fixed) and ox == 0)) else None)
         node = CaptionNode.create_text("x", layout_info=L if level == "node" else None)
         cap = Caption(0, 10 ** 6, [node], layout_info=L if level == "caption" else None)
         cs = CaptionSet({"en": CaptionList([cap], layout_info=L if level == "language" else None)})
+        import copy
+        pristine = copy.deepcopy(cs)
         for Wr in (DFXPWriter, SAMIWriter, WebVTTWriter):
             key = (Wr.__name__, unit.value, W, H, ox, oy, has_ext, ew, eh, level, fit, L.padding is not None)
 
@@ -365,7 +380,7 @@ def bounded_writers(ctx, b):
                     m = re.search(r'tts:origin="(\S+) (\S+)"', out.split("</layout>")[0].split('xml:id="bottom"')[-1])
                     ex, ey = expected_pct(ox, unit, W, H, True), expected_pct(oy, unit, W, H, False)
                     if m and ex is not None and ey is not None:
-                        if (m.group(1), m.group(2)) != (ref2(ex) + "%", ref2(ey) + "%"):
+                        if not (printed_ok(m.group(1).rstrip("%"), ex) and printed_ok(m.group(2).rstrip("%"), ey)):
                             return False, {"origin_written": m.groups(), "expected": (ref2(ex), ref2(ey))}
                         if fit and 10 <= ex <= 90 and 5 <= ey <= 95:
                             me = re.search(r'tts:extent="(\S+)% (\S+)%"', out)
@@ -376,6 +391,35 @@ def bounded_writers(ctx, b):
                                 return False, {"fit_to_screen": "region exceeds the safe area", "edges": (ex + rw, ey + rh)}
                             if not has_ext and (abs(ex + rw - 90) > 0.011 or abs(ey + rh - 95) > 0.011):
                                 return False, {"fit_to_screen": "missing extent does not reach the edges", "edges": (ex + rw, ey + rh)}
+                if Wr is WebVTTWriter and fit and L.padding is None:
+                    # WebVTT: the cue box never crosses the 90% edge, and a missing extent reaches it - also from x = 0
+                    ex = expected_pct(ox, unit, W, H, True)
+                    ew_ = expected_pct(ew, unit, W, H, True) if has_ext else None
+                    mp, ms = re.search(r"position:([\d.]+)%", out), re.search(r"size:([\d.]+)%", out)
+                    if ex is not None and 0 <= ex <= 89 and mp:
+                        if not ms:
+                            return False, {"fit_to_screen": "no size written for a positioned cue", "output": out[:300]}
+                        right = float(mp.group(1)) + float(ms.group(1))
+                        want = 90 if (ew_ is None or ex + ew_ > 90) else ex + ew_
+                        if right > 90.5 or abs(right - want) > 1.01:          # (WebVTT prints whole percentages)
+                            return False, {"fit_to_screen": "right edge of the cue box", "position_plus_size": right, "expected": want, "output": out[:300]}
+                if Wr is DFXPWriter and W and H:
+                    # the percentages are those of the size supplied to THIS writer: what another writer configured with
+                    # another size wrote before does not matter (and without a size the refusal still happens)
+                    def again(**kw):
+                        try:
+                            return WebVTTWriter(relativize=True, fit_to_screen=fit, **kw).write
+                        except Exception:
+                            raise
+                    for kw in ({"video_width": 2 * W, "video_height": 2 * H}, {}):
+                        res = []
+                        for target in (cs, copy.deepcopy(pristine)):
+                            try:
+                                res.append(WebVTTWriter(relativize=True, fit_to_screen=fit, **kw).write(target))
+                            except RelativizationError:
+                                res.append("refused")
+                        if res[0] != res[1]:
+                            return False, {"written_after_a_DFXP_write_with_another_size": res[0][:300], "written_from_a_pristine_copy": res[1][:300], "second_writer": kw}
                 return True, None
             b.guard(key, one, sample={"writer": Wr.__name__, "unit": unit.value, "video": (W, H), "level": level})
 
